@@ -1,4 +1,4 @@
 """C06 - no lock of a finished transaction is left behind once the background work has drained (no lost messages)."""
 from checks.txn_common import run_txn_check
 def run(tier, seed, replay=None):
-    return run_txn_check("C06", [("c06", 300, 5000), ("c01", 60, 1000)], tier, seed, replay)
+    return run_txn_check("C06", [("c06", 300, 5000), ("c01", 60, 1000), ("c03", 3, 1)], tier, seed, replay)
